@@ -679,3 +679,36 @@ MUTANTS += [
                 return false;
             }""")]),
 ]
+MUTANTS += [
+ dict(name='seed-C02-montgomery-meta-carry', prop='C02', patch='seeded/C02-montgomery-meta-carry/patch.diff', expect='R-NOWRAP'),
+ dict(name='c02-multiply-word-accumulate-unwidened', prop='C02', expect='R-NOWRAP',
+      edits=[('include/core/bigint.hpp', """                    dword_t new_word = ((dword_t) a.words[i]) * ((dword_t) b.words[j]) + this->words[i + j] + carry;
+                    carry = new_word >> (sizeof(word_t) * 8);
+                    this->words[i + j] = (word_t) new_word;
+                }
+                this->words[i + b.word_length] = carry;""", """                    dword_t new_word = ((dword_t) a.words[i]) * ((dword_t) b.words[j]) + carry;
+                    word_t low = this->words[i + j] + (word_t) new_word;
+                    carry = new_word >> (sizeof(word_t) * 8);
+                    this->words[i + j] = low;
+                }
+                this->words[i + b.word_length] = carry;""")]),
+ dict(name='c02-benign-montgomery-sum-order', prop='C02', benign=True, expect='',
+      edits=[('include/core/fp.hpp', '((typename BigInt<bits>::dword_t) a.words[i + BigInt<bits>::word_length]) + ((typename BigInt<bits>::dword_t) carry) + ((typename BigInt<bits>::dword_t) meta_carry);',
+              '((typename BigInt<bits>::dword_t) meta_carry) + ((typename BigInt<bits>::dword_t) carry) + ((typename BigInt<bits>::dword_t) a.words[i + BigInt<bits>::word_length]);')]),
+]
+MUTANTS += [
+ dict(name='c02-subtract-borrow-compares-b', prop='C02', expect='nowrap|borrow',
+      edits=[('include/core/bigint.hpp', """                    dword_t old_a_val = a.dwords[i];
+                    this->dwords[i] = a.dwords[i] - b.dwords[i] - borrow;
+                    if (borrow == 0) {
+                        borrow = (old_a_val < this->dwords[i]) ? 1 : 0;
+                    } else {
+                        borrow = (old_a_val <= this->dwords[i]) ? 1 : 0;
+                    }""", """                    dword_t old_b_val = b.dwords[i];
+                    this->dwords[i] = a.dwords[i] - b.dwords[i] - borrow;
+                    if (borrow == 0) {
+                        borrow = (old_b_val < this->dwords[i]) ? 1 : 0;
+                    } else {
+                        borrow = (old_b_val <= this->dwords[i]) ? 1 : 0;
+                    }""")]),
+]
